@@ -1110,8 +1110,8 @@ def gen_c(d, opts=None, name=None):
     if not opts.get("no_header"):
         g.header(base)
         g.blank()
-    if d.bool(0.2):
-        for _ in range(d.int(1, 3)):
+    if d.bool(0.2) or "leading-comments" in opts.get("force", ()):
+        for _ in range(d.int(2, 3) if "leading-comments" in opts.get("force", ()) else d.int(1, 3)):
             g.comment_lines()
         g.blank()
         g.tag("section:leading-comments")
